@@ -25,6 +25,23 @@ fn run_engine(engine: &str, ctx: &mut Ctx) {
     let ctx = &mut *ctx;
     match engine {
         "noop" => {}
+        // Driver self-tests: deliberately misbehave so that ./check --selftest can
+        // verify that sanitizer / Miri reports are recognised and attributed.
+        "selftest-uaf" => {
+            ctx.begin_case(7, || wpmon::json::Json::obj().with("kind", wpmon::json::Json::s("selftest-uaf")).with("index", wpmon::json::Json::U(7)));
+            let v = vec![1u8, 2, 3, 4];
+            let p = v.as_ptr();
+            drop(v);
+            let x = unsafe { std::ptr::read_volatile(p.add(1)) };
+            println!("read {}", x);
+            ctx.end_case(7);
+        }
+        "selftest-leak" => {
+            ctx.begin_case(8, || wpmon::json::Json::obj().with("kind", wpmon::json::Json::s("selftest-leak")).with("index", wpmon::json::Json::U(8)));
+            let v = vec![0u8; 4096];
+            std::mem::forget(v);
+            ctx.end_case(8);
+        }
         "codec" => wpmon::engines::codec::run(ctx),
         "record-stream" => wpmon::engines::codec::run_record_streams(ctx),
         "codec-stream" => wpmon::engines::codec::run_stream(ctx),
